@@ -513,6 +513,13 @@ impl StateCheck for C17 {
                 let which: Vec<&str> = o.files.iter().zip(o2.files.iter()).filter(|(a, b)| a != b).map(|(a, _)| a.0.as_str()).collect();
                 out.viol("cli_output_files_replace_existing_ones", &[], cfg, format!("exit {:?}; files that differ from a run into fresh paths: {which:?} (lengths {:?})", o2.status, o2.files.iter().map(|f| f.1.as_ref().map(|b| b.len())).collect::<Vec<_>>()), "the same three files");
             }
+            // ... and when they hold older files of exactly the same length (same layout, other digits)
+            let same_len = |n: &str| -> Vec<u8> { o.files.iter().find(|(k, _)| k == n).and_then(|(_, b)| b.clone()).unwrap_or_default().iter().map(|c| if c.is_ascii_digit() { b'7' } else { *c }).collect() };
+            let (oj, ox, ot) = (same_len("o.json"), same_len("o.xml"), same_len("o.txt"));
+            let o3 = cli::run(&cli::sv(&["-c", "@c.csv", "-l", "PENINSULA", "--json", "@o.json", "--xml", "@o.xml", "--txt", "@o.txt"]), &[("c.csv", text.as_bytes()), ("o.json", &oj), ("o.xml", &ox), ("o.txt", &ot)], &["o.json", "o.xml", "o.txt"], Some(7), Duration::from_secs(10));
+            if o3.status != Some(0) || o3.files != o.files {
+                out.viol("cli_output_files_replace_existing_ones", &[], cfg, format!("exit {:?}; over existing files of the same length the files are not those of a run into fresh paths", o3.status), "the same three files");
+            }
             let get = |n: &str| o.files.iter().find(|(k, _)| k == n).and_then(|(_, b)| b.clone()).map(|b| String::from_utf8_lossy(&b).to_string());
             match (get("o.json"), get("o.xml"), get("o.txt")) {
                 (Some(j), Some(x), Some(t)) => {
@@ -623,8 +630,12 @@ pub fn run(ctx: &Ctx) -> i32 {
     explore(ctx, "comment / metadata strings: 9 placements x 24 strings (in-process + CLI files)", StringsSpace { bases, strs: strings() }, C17 { cli: true }, shared.clone());
     let mut al = alpha::flow(2, &[0, 100, 300], Rich::Base);
     al.extend(extra_letters());
-    let d = if ctx.quick() { 3 } else { 4 };
+    let d = if ctx.quick() { 2 } else { 3 };
     explore(ctx, &format!("FLOW + demands/aux/outputs/large values, depth<={d} (in-process)"), Wide { alphabet: al, bases: alpha::bases(false), max_add: d, repeat: false }, C17 { cli: false }, shared.clone());
+    // one level deeper over the reduced vector set {1,3}
+    let mut al2 = alpha::flow(2, &[100, 300], Rich::Base);
+    al2.extend(extra_letters());
+    explore(ctx, &format!("FLOW values {{1,3}} + demands/aux/outputs/large values, depth<={} (in-process)", d + 1), Wide { alphabet: al2, bases: alpha::bases(false), max_add: d + 1, repeat: false }, C17 { cli: false }, shared.clone());
     explore(ctx, "shipped files + <=1 line (in-process + CLI files)", Wide { alphabet: alpha::seeded_letters(), bases: alpha::shipped_bases(), max_add: if ctx.quick() { 0 } else { 1 }, repeat: false }, C17 { cli: true }, shared.clone());
     finish(
         ctx,
